@@ -170,7 +170,8 @@ fn matches_definition(l: &Log, g: &Game) -> bool {
         // auto detection tries java (tcp), bedrock (udp), legacy (tcp); only the FIRST attempt is within reach (the path is cut there)
         (Protocol::PROPRIETARY(ProprietaryProtocol::Minecraft(None)), Call::Transport { kind, .. }) => kind == 2,
         (Protocol::PROPRIETARY(ProprietaryProtocol::Eco), Call::Transport { kind, .. }) => l.n == 1 && kind == 3,
-        (Protocol::PROPRIETARY(_), Call::Transport { kind, .. }) => l.n == 1 && kind == 1,
+        // any other proprietary protocol: the property fixes the destination only, not the kind of transport
+        (Protocol::PROPRIETARY(_), Call::Transport { .. }) => l.n == 1,
         _ => false,
     }
 }
